@@ -670,6 +670,8 @@ class Engine:
                 items[self.PAIR_FIELDS[target.attr]] = v
                 self.assign(target.value, VTuple(items), st, True)      # struct field store: write the updated pair back
             else:
+                if isinstance(obj, VRef) and target.attr in self.reg.classes.get(obj.cls, {}):
+                    v = self.coerce(v, self.field_sort(obj.cls, target.attr), st)
                 self.store_field(st, obj, target.attr, v)
         elif isinstance(target, ast.Subscript):
             base = self.eval(target.value, st)
@@ -1160,6 +1162,10 @@ class Engine:
             if seq is NotImplemented:
                 seq = self.load_field(st, it, self.reg.iter_fields[it.cls])
             return self.iter_protocol(seq, st)
+        if isinstance(it, VDictItems):
+            d = it.d
+            n, getter = self.iter_protocol(VSet(d.key, d.dom), st)
+            return n, (lambda j: VTuple([getter(j), from_z3(d.map[to_z3(getter(j), d.key)], d.val)]))
         if isinstance(it, VSet) and getattr(self, "concrete", False):
             if not hasattr(it, "items"):
                 raise Unsupported("concrete run: iteration over a set whose elements are not known")
